@@ -17,6 +17,7 @@ import (
 	"github.com/lmorg/murex/utils"
 	"github.com/lmorg/murex/utils/ansititle"
 	"github.com/lmorg/murex/utils/crash"
+	"github.com/lmorg/murex/utils/verifhook"
 )
 
 var (
@@ -217,6 +218,7 @@ func createProcess(p *Process, isMethod bool) {
 
 func executeProcess(p *Process) {
 	defer crash.Handler()
+	verifhook.Yield("lang.executeProcess.entry")
 
 	testStates(p)
 
@@ -292,6 +294,7 @@ executeProcess:
 	switch {
 	case p.Scope.Id != ShellProcess.Id && PrivateFunctions.Exists(name, p.FileRef):
 		// murex privates
+		verifhook.Event("exec", p.Id, name, "private")
 		fn := PrivateFunctions.get(name, p.FileRef)
 		if fn != nil {
 			fork := p.Fork(F_FUNCTION)
@@ -304,6 +307,7 @@ executeProcess:
 
 	case GlobalAliases.Exists(name) && p.Parent.Name.String() != "alias" && !parsedAlias:
 		// murex aliases
+		verifhook.Event("exec", p.Id, name, "alias")
 		alias := GlobalAliases.Get(name)
 		p.Name.Set(alias[0])
 		name = alias[0]
@@ -313,6 +317,7 @@ executeProcess:
 
 	case MxFunctions.Exists(name):
 		// murex functions
+		verifhook.Event("exec", p.Id, name, "function")
 		fn := MxFunctions.get(name)
 		if fn != nil {
 			fork := p.Fork(F_FUNCTION)
@@ -328,6 +333,7 @@ executeProcess:
 
 	case GoFunctions[name] != nil:
 		// murex builtins
+		verifhook.Event("exec", p.Id, name, "builtin")
 		p.State.Set(state.Executing)
 		err = GoFunctions[name](p)
 
@@ -346,6 +352,7 @@ executeProcess:
 		}
 
 		// shell execute
+		verifhook.Event("exec", p.Id, name, "external")
 		p.Parameters.Prepend([]string{name})
 		p.Name.Set("exec")
 		// Don't put the following here: p.State.Set(state.Executing)
@@ -430,7 +437,9 @@ func destroyProcess(p *Process) {
 	// Make special case for `bg` because that doesn't wait.
 	if p.Name.String() != "bg" && !p.IsFork {
 		//debug.Json("destroyProcess (p.WaitForTermination <- false)", p.Dump())
+		verifhook.Yield("lang.destroyProcess.beforeWaitSignal")
 		p.WaitForTermination <- false
+		verifhook.Yield("lang.destroyProcess.afterWaitSignal")
 	}
 
 	//debug.Json("destroyProcess (deregisterProcess)", p.Dump())
@@ -454,6 +463,7 @@ func deregisterProcess(p *Process) {
 	}
 
 	go func() {
+		verifhook.Yield("lang.deregisterProcess.async")
 		p.State.Set(state.AwaitingGC)
 		GlobalFIDs.Deregister(p.Id)
 		if p.HasJobId.Get() {
